@@ -98,7 +98,7 @@ def check(rep, an, tier):
                           msg=f"[{ustr(v.unit)}] {v.frame}")
                 R.rule_type_errors(rep, res, "SHAPE", "R-SHAPE", "ReceptorEstimator.system_capture")
                 # the prediction uses the LIVE capture matrix: no cached copy is written by (or read instead of) the query
-                R.rule_effect_free(rep, res, "ReceptorEstimator.system_capture")
+                R.rule_effect_free(rep, res, "ReceptorEstimator.system_capture", reg=_reg(an))
                 rep.check("R-FLOW", "system_capture reads the registered capture matrix", "self.A" in v.data, where=res.fn.loc(),
                           construct="self.A → system_capture", entry="ReceptorEstimator.system_capture", config=cfgs,
                           msg=f"the prediction depends on {sorted(v.data)}, not on the registered capture matrix self.A")
@@ -115,7 +115,7 @@ def check(rep, an, tier):
                           msg=f"[{ustr(v.unit)}] {v.frame}")
                 R.rule_type_errors(rep, res, "SHAPE", "R-SHAPE", entry)
                 R.rule_type_errors(rep, res, "QTY", "R-QTY", entry)
-                R.rule_effect_free(rep, res, entry)
+                R.rule_effect_free(rep, res, entry, reg=_reg(an))
                 R.rule_purity(rep, res, entry)
     # sibling: apply_linear_transform
     for Kk in ("vec", "mat"):
@@ -189,3 +189,8 @@ def check(rep, an, tier):
     rep.require("R-QTY", 15)
     rep.require("R-FLOW", 20)
     rep.require("R-NOFLOW", 8)
+
+
+def _reg(an):
+    from .C14 import registration_writes
+    return registration_writes(an)
